@@ -21,6 +21,8 @@ pub enum AStep {
     Adv(u64),
     /// slow-client variant: the client takes one message off its channel
     Read,
+    /// one event that carries 130 keys (what a pdelete of a subtree, or a burst, hands over at once)
+    Big(bool),
 }
 
 pub struct AggScenario {
@@ -97,6 +99,18 @@ impl Scenario for AggScenario {
                 match st {
                     AStep::Read => {
                         collect(&mut rx, &mut outputs, &mut batches, &mut violation, 1);
+                        settle_short().await;
+                    }
+                    AStep::Big(set) => {
+                        counter += 1;
+                        let kv: Vec<KeyValuePair> = (0..130).map(|i| KeyValuePair { key: format!("big/{i}"), value: json!(counter) }).collect();
+                        for x in &kv {
+                            inputs.entry(x.key.clone()).or_default().push((*set, counter, start.elapsed().as_millis()));
+                        }
+                        let ev = if *set { PStateEvent::KeyValuePairs(kv) } else { PStateEvent::Deleted(kv) };
+                        if agg.aggregate(ev).await.is_err() {
+                            violation = Some("aggregator refused an event".into());
+                        }
                         settle_short().await;
                     }
                     AStep::Ev(set, key) | AStep::Same(set, key) => {
@@ -181,6 +195,10 @@ pub fn agg_scenario() -> AggScenario {
         ],
         slow_client: false,
     }
+}
+
+pub fn big_batch_scenario() -> AggScenario {
+    AggScenario { steps: vec![AStep::Big(true), AStep::Big(false), AStep::Ev(true, "big/7"), AStep::Adv(INTERVAL_MS)], slow_client: false }
 }
 
 pub fn slow_client_scenario() -> AggScenario {
